@@ -21,7 +21,8 @@ import JaqalProofs.Lemmas.FillInSem
   emulator's extraction factor through `Resolve.resolveQubit`; a gate written on an alias acts on the same fundamental
   qubit as the gate written on the register directly.
 * `C06_fill_in_map` — alias fill-in leaves the meaning unchanged and rewrites every qubit argument to `fundamental[k]`,
-  `(fundamental, k)` being the resolution of the original (`C06_mapVal_qubit`).
+  `(fundamental, k)` being the resolution of the original (`C06_mapVal_qubit`); it never writes a register name inside a
+  macro whose parameter has that name (`FundRefNot`; the error case is `C06_fill_in_map_shadow`).
 -/
 namespace Jaqal.FillIn
 open Jaqal Jaqal.Builder Jaqal.Resolve
@@ -335,10 +336,12 @@ theorem resolveQubitV_spec (ctx : Resolve.Ctx) (q : Val) :
         · simp only [hr]; rfl
   | _ => rfl
 
-/-- alias fill-in (`MapFiller.visit_NamedQubit`): `reg[index]` of the resolution -/
-theorem C06_agree_fill (n : String) (src idx : Val) :
-    mapVal (.qubit n src idx) = (do
+/-- alias fill-in (`MapFiller.visit_NamedQubit`): `reg[index]` of the resolution, refused when the register's name is
+a parameter name of the macro being visited -/
+theorem C06_agree_fill (mps : List String) (n : String) (src idx : Val) :
+    mapVal mps (.qubit n src idx) = (do
       let (reg, k) ← resolveQubitV [] (.qubit n src idx)
+      if mps.contains (nameOf reg) then throw (.jaqal "macro-parameter-named-like-register")
       getItem reg (.int k)) ∧
     (resolveQubitV [] (.qubit n src idx)).map (fun p => (nameOf p.1, p.2)) = resolveQubit [] (.qubit n src idx) :=
   ⟨rfl, resolveQubitV_spec [] _⟩
@@ -429,14 +432,22 @@ def GoodRef : Val → Prop
   | _ => True
 
 /-- `MapFiller.visit_NamedQubit`: the result is `fundamental[k]`, `(fundamental, k)` = the resolution of the original -/
-theorem C06_mapVal_qubit {n : String} {src idx v' : Val} (h : mapVal (.qubit n src idx) = .ok v') :
+theorem C06_mapVal_qubit {mps : List String} {n : String} {src idx v' : Val} (h : mapVal mps (.qubit n src idx) = .ok v') :
     ∃ nm reg k, v' = .qubit nm reg (.int k) ∧ resolveQubitV [] (.qubit n src idx) = .ok (reg, k) ∧
-      resolveQubit [] (.qubit n src idx) = .ok (nameOf reg, k) := by
+      resolveQubit [] (.qubit n src idx) = .ok (nameOf reg, k) ∧ nameOf reg ∉ mps := by
   simp only [mapVal] at h
   obtain ⟨p, hp, h⟩ := bind_ok h
   obtain ⟨reg, k⟩ := p
+  simp only [] at h
+  by_cases hc : mps.contains (reg.name?.getD "") = true
+  · have hc' : reg.name?.getD "" ∈ mps := by simpa using hc
+    simp [hc', throw_eq, bind, Except.bind] at h
+  simp only [hc, Bool.false_eq_true, if_false] at h
+  have hnot : nameOf reg ∉ mps := by
+    intro hmem
+    exact hc (by simpa [nameOf] using hmem)
   obtain ⟨nm, hv⟩ := getItem_eq h
-  refine ⟨nm, reg, k, hv, hp, ?_⟩
+  refine ⟨nm, reg, k, hv, hp, ?_, hnot⟩
   have := resolveQubitV_spec [] (.qubit n src idx)
   rw [hp] at this
   exact this.symm
@@ -461,12 +472,12 @@ theorem resolveQubitV_fund {n : String} {src idx reg : Val} {k : Int}
   | _ => simp at h
 
 /-- fill-in of a good reference does not change what it denotes, under any parameter bindings -/
-theorem mapVal_sem {v v' : Val} (hg : GoodRef v) (h : mapVal v = .ok v') (b : Sem.Bind) :
+theorem mapVal_sem {mps : List String} {v v' : Val} (hg : GoodRef v) (h : mapVal mps v = .ok v') (b : Sem.Bind) :
     Sem.evalArg [] b v' = Sem.evalArg [] b v ∧ Sem.evalNum [] b v' = Sem.evalNum [] b v := by
   cases v with
   | qubit n src idx =>
     obtain ⟨hv, i, hi⟩ := hg
-    obtain ⟨nm, reg, k, rfl, hV, hR⟩ := C06_mapVal_qubit h
+    obtain ⟨nm, reg, k, rfl, hV, hR, _⟩ := C06_mapVal_qubit h
     have hf := resolveQubitV_fund hV hv
     have hvreg := fundOf_valid hv hf
     have hspec := (C06_resolve_eq_spec n src idx i hv hi (nameOf reg, k)).1 hR
@@ -491,7 +502,8 @@ theorem mapVal_sem {v v' : Val} (hg : GoodRef v) (h : mapVal v = .ok v') (b : Se
 
 /-- what `fillInMap` returns: the rebuild of the unvisited registers and the visited macros and statements -/
 theorem fillInMap_rebuilt {c c' : Circuit} (hw : WellFormed c) (h : fillInMap c = .ok c') :
-    ∃ bs, c.body = .block false false (.int 1) bs ∧ Rebuilt mapVal pure c c.registers bs c' := by
+    ∃ bs, c.body = .block false false (.int 1) bs ∧
+      Rebuilt (mapVal []) (fun (m : Macro) => mapVal (m.params.map Prod.fst)) pure c c.registers bs c' := by
   obtain ⟨bs, hbs⟩ := hw.body
   unfold fillInMap mapSx at h
   obtain ⟨sx, hsx, h⟩ := bind_ok h
@@ -507,24 +519,36 @@ theorem fillInMap_rebuilt {c c' : Circuit} (hw : WellFormed c) (h : fillInMap c 
   cases hbody
   simp only [tailOf, pure, Except.pure] at hstmts
   cases hstmts
-  exact ⟨bs, hbs, build_circuitSx (F := mapVal) (G := pure) hmacros hes hw.consts hw.regs h⟩
+  exact ⟨bs, hbs, build_circuitSx (F := mapVal []) (Fm := fun (m : Macro) => mapVal (m.params.map Prod.fst)) (G := pure) hmacros hes
+    hw.consts hw.regs h⟩
 
 /-- a qubit argument of the result sits directly on a fundamental register, with a literal index -/
 def FundRef : Val → Prop
   | .qubit _ src idx => (∃ r sz, src = .regF r sz) ∧ ∃ k, idx = .int k
   | _ => True
 
-theorem mapVal_fundRef {v v' : Val} (hg : GoodRef v) (h : mapVal v = .ok v') : FundRef v' := by
+/-- … and the name of that register is none of `mps` -/
+def FundRefNot (mps : List String) : Val → Prop
+  | .qubit _ src idx => (∃ r sz, src = .regF r sz ∧ r ∉ mps) ∧ ∃ k, idx = .int k
+  | _ => True
+
+theorem FundRefNot.fundRef {mps : List String} {v : Val} (h : FundRefNot mps v) : FundRef v := by
+  cases v <;> first | trivial | exact ⟨⟨h.1.choose, h.1.choose_spec.choose, h.1.choose_spec.choose_spec.1⟩, h.2⟩
+
+theorem mapVal_fundRef {mps : List String} {v v' : Val} (hg : GoodRef v) (h : mapVal mps v = .ok v') :
+    FundRefNot mps v' := by
   cases v with
   | qubit n src idx =>
     obtain ⟨hv, _, _⟩ := hg
-    obtain ⟨nm, reg, k, rfl, hV, _⟩ := C06_mapVal_qubit h
-    have hvreg := fundOf_valid hv (resolveQubitV_fund hV hv)
+    obtain ⟨nm, reg, k, rfl, hV, _, hnot⟩ := C06_mapVal_qubit h
     refine ⟨?_, k, rfl⟩
     have hf := resolveQubitV_fund hV hv
-    clear * - hf
+    clear * - hf hnot
     induction src with
-    | regF r sz _ => simp only [UsedQubits.fundOf, Option.some.injEq] at hf; exact ⟨r, sz, hf.symm⟩
+    | regF r sz _ =>
+      simp only [UsedQubits.fundOf, Option.some.injEq] at hf
+      subst hf
+      exact ⟨r, sz, rfl, by simpa [nameOf, Val.name?] using hnot⟩
     | regA _ s ih => exact ih (by simpa [UsedQubits.fundOf] using hf)
     | regS _ s _ _ _ ih _ _ _ => exact ih (by simpa [UsedQubits.fundOf] using hf)
     | _ => simp [UsedQubits.fundOf] at hf
@@ -583,30 +607,40 @@ theorem Rel_argss {F G : Val → M Val} {P Q : Val → Prop} (hF : ∀ v v', P v
 end
 
 /-- **C06_fill_in_map**: on a well-formed circuit whose qubit references go through valid chains with integer (literal
-or let) indices, a successful alias fill-in (1) leaves the meaning unchanged and (2) leaves only qubit arguments of the
+or let) indices, a successful alias fill-in (1) leaves the meaning unchanged, (2) leaves only qubit arguments of the
 form `fundamental[k]` in the body and the macros — by `C06_mapVal_qubit`, `(fundamental, k)` is the library's
-resolution of the original reference. -/
+resolution of the original reference — and (3) never writes the name of a register inside a macro one of whose
+parameters has that name (there the name would mean the parameter: such a circuit is refused, `C06_fill_in_map_shadow`). -/
 theorem C06_fill_in_map (c c' : Circuit) (hw : WellFormed c) (hb : AllVals GoodRef c.body)
     (hm : ∀ m ∈ c.macros, AllVals GoodRef m.body) (h : fillInMap c = .ok c') :
-    Sem.meaning [] c' = Sem.meaning [] c ∧ ArgsAll FundRef c'.body ∧ (∀ m ∈ c'.macros, ArgsAll FundRef m.body) ∧
-      c'.registers = c.registers := by
+    Sem.meaning [] c' = Sem.meaning [] c ∧ ArgsAll FundRef c'.body ∧
+      (∀ m ∈ c'.macros, ArgsAll (FundRefNot (m.params.map (·.1))) m.body) ∧ c'.registers = c.registers := by
   obtain ⟨bs, hbs, hr⟩ := fillInMap_rebuilt hw h
   have hB := hw.blocks
   rw [hbs] at hB hb
   simp only [BlocksOK] at hB
   simp only [AllVals] at hb
-  have hF : ∀ v v', GoodRef v → mapVal v = .ok v' → FundRef v' := fun v v' hg hv => mapVal_fundRef hg hv
   refine ⟨?_, ?_, ?_, hr.registers⟩
   · exact Rebuilt_meaning (P := GoodRef) (fun v v' b hg hv => mapVal_sem hg hv b)
-      (fun v v' b _ hv => by cases hv; exact ⟨rfl, fun hn => hn⟩) hr hbs hB.2.2 hb.2
-      (fun m hmem => ⟨hw.macros m hmem, hm m hmem⟩)
+      (fun v v' b _ hv => by cases hv; exact ⟨rfl, fun hn => hn⟩) (fun _ v v' b hg hv => mapVal_sem hg hv b)
+      hr hbs hB.2.2 hb.2 (fun m hmem => ⟨hw.macros m hmem, hm m hmem⟩)
   · obtain ⟨ss, hc', hrel⟩ := hr.body
     rw [hc']
     simp only [ArgsAll]
-    exact Rel_argss hF bs ss hrel hb.2
+    exact Rel_argss (fun v v' hg hv => (mapVal_fundRef hg hv).fundRef) bs ss hrel hb.2
   · intro m' hm'
     obtain ⟨m, hmem, hmm⟩ := forall₂_right hr.macros m' hm'
-    exact Rel_args hF _ _ hmm.2.2 (hm m hmem)
+    have hps : m'.params.map (·.1) = m.params.map (·.1) := by rw [hmm.2.1, List.map_map]; rfl
+    rw [hps]
+    exact Rel_args (fun v v' hg hv => mapVal_fundRef hg hv) _ _ hmm.2.2 (hm m hmem)
+
+/-- the error case: a reference that resolves to register `r` inside a macro with a parameter called `r` -/
+theorem C06_fill_in_map_shadow (mps : List String) (n : String) (src idx reg : Val) (k : Int)
+    (hres : resolveQubitV [] (.qubit n src idx) = .ok (reg, k)) (hin : nameOf reg ∈ mps) :
+    mapVal mps (.qubit n src idx) = .error (.jaqal "macro-parameter-named-like-register") := by
+  simp [mapVal, hres, bind, Except.bind, throw_eq]
+  intro hc
+  exact absurd (by simpa [nameOf] using hin) hc
 
 /-! ### Non-vacuity -/
 section Examples
@@ -622,7 +656,8 @@ example : sizeI aC = some 2 := by decide
 example : Sem.evalReg [] [] aC = .ok [("r", 5), ("r", 3)] := by rfl
 example : resolveQubit [] (.qubit "c[1]" aC (.int 1)) = .ok ("r", 3) := by rfl
 example : Sem.evalQubit [] [] (.qubit "c[1]" aC (.const "k" (.int 1))) = .ok ("r", 3) := by rfl
-example : mapVal (.qubit "c[1]" aC (.int 1)) = .ok (.qubit "r[3]" R8 (.int 3)) := by rfl
+example : mapVal [] (.qubit "c[1]" aC (.int 1)) = .ok (.qubit "r[3]" R8 (.int 3)) := by rfl
+example : mapVal ["x", "r"] (.qubit "c[1]" aC (.int 1)) = .error (.jaqal "macro-parameter-named-like-register") := by rfl
 example : emuQidx (.qubit "c[1]" aC (.int 1)) = .ok 3 := by rfl
 /-- a slice that leaves its let-sized source (the constructor cannot check it): the library still resolves `d[0]`,
 the specification rejects the alias — `ValidChain` fails -/
@@ -681,3 +716,4 @@ end Jaqal.FillIn
 #print axioms Jaqal.FillIn.C06_alias_same_as_direct
 #print axioms Jaqal.FillIn.C06_mapVal_qubit
 #print axioms Jaqal.FillIn.C06_fill_in_map
+#print axioms Jaqal.FillIn.C06_fill_in_map_shadow
